@@ -23,11 +23,33 @@
 (* where Members is sufficient (no expectation information).               *)
 (* Validator mode: post-condition of C03 on the values returned by the     *)
 (* library, at every member and at every vertex of every support.          *)
+(*                                                                         *)
+(* Lifted supports (kinds 9-12): the model has an auxiliary random vector  *)
+(* u (1 or 2 components) next to z; a support point is a tuple (z, u) of   *)
+(* length 2 + NU; expectation sets may bound E(u) (mean absolute deviation *)
+(* / Wasserstein-style sets); decisions may adapt affinely to u.  TLC      *)
+(* writes down ATOMS (integer points verified by SuppMember, the exact     *)
+(* definition of the declared set) and conditional distributions with ONE  *)
+(* or TWO atoms per scenario (weights k/4), so that E(u) <= theta is       *)
+(* active in members that move part of a scenario's mass away from the     *)
+(* sample point.  Probability kinds 6-9 (KL divergence / 2-norm balls) are *)
+(* not polyhedral: ProbVert lists rational INNER points (2-norm: verified  *)
+(* here in integers; KL: verified by the harness from the definition), so  *)
+(* the member check is a sound necessary condition; the C04 direction for  *)
+(* these kinds is decided by the float oracle with inner/outer polygons.   *)
+(*                                                                         *)
+(* Further forms: "C" = objective minsup max(piece1, piece2) WITHOUT E (a  *)
+(* piecewise objective: the worst case over the supports alone); rows with *)
+(* their OWN support (rsupp # 0: constraint.forall(second ambiguity set) / *)
+(* .forall(list of support constraints)) hold on that support while the    *)
+(* objective is still taken over the ambiguity set of minsup; conic        *)
+(* expectation sets || E z - mu || <= r in the 1-, inf- and 2-norm (kinds  *)
+(* 12-15; membership exact in integers, also for the 2-norm).              *)
 (***************************************************************************)
 EXTENDS Integers, Sequences, FiniteSets, TLC, FiniteSetsExt, SequencesExt, Json
 
 CONSTANTS NSs,        \* set of scenario counts
-          SuppKinds, ProbKinds, ExptKinds, Forms, PieceSets, EConChoices, Parts, Affs, IntChoices,
+          SuppKinds, ProbKinds, ExptKinds, Forms, PieceSets, EConChoices, Parts, Affs, IntChoices, RowSupps,
           XB, Results, SC
 
 DEN == 60
@@ -51,6 +73,46 @@ SuppVert(kind, s) ==
       \* different slope in every scenario, so event-wise rules that wrongly share coefficients cost something
       [] kind = 8 -> BoxV(c[1] - s, c[1] + s, c[2] - 1, c[2] + 1)
 
+\* ---------------------------------------------------------------- lifted supports (auxiliary random variables)
+Max2(a, b) == IF a >= b THEN a ELSE b
+Abs(a) == IF a >= 0 THEN a ELSE -a
+NU(kind) == CASE kind = 9 -> 2 [] kind \in {10, 11, 12} -> 1 [] OTHER -> 0
+Lifted(kind) == NU(kind) > 0
+Dim(kind) == 2 + NU(kind)
+\* the DECLARED set, exactly (integer points): a = <<z1, z2, u...>>, zhat_s = Zc(s)
+SuppMember(kind, s, a) ==
+    LET c == Zc(s)  d1 == Abs(a[1] - c[1])  d2 == Abs(a[2] - c[2]) IN
+    CASE kind = 9  -> d1 <= 1 /\ d2 <= 1 /\ d1 <= a[3] /\ d2 <= a[4]                             \* z in c +- 1, |z - c| <= u
+      [] kind = 10 -> Abs(a[1]) <= 3 /\ Abs(a[2]) <= 3 /\ d1 + d2 <= a[3]                        \* ||z - zhat||_1 <= u
+      [] kind = 11 -> Abs(a[1]) <= 2 /\ Abs(a[2]) <= 2 /\ Max2(d1, d2) <= a[3] /\ a[3] <= 3      \* ||z - zhat||_inf <= u <= 3
+      [] kind = 12 -> Abs(a[1]) <= 3 /\ Abs(a[2]) <= 3 /\ a[3] >= 0 /\ d1 * d1 + d2 * d2 <= a[3] * a[3]   \* ||z - zhat||_2 <= u
+ZCand(kind, s) ==
+    LET c == Zc(s) IN
+    CASE kind = 9 -> {c, <<c[1] + 1, c[2]>>, <<c[1], c[2] - 1>>} \cup BoxV(c[1] - 1, c[1] + 1, c[2] - 1, c[2] + 1)
+      [] kind = 11 -> BoxV(-2, 2, -2, 2) \cup {c}
+      [] OTHER -> BoxV(-3, 3, -3, 3) \cup {c}
+\* the smallest integer u that makes (z, u) a member (kinds 10-12), plus r
+LiftAtom(kind, s, z, r) ==
+    LET c == Zc(s)  d1 == Abs(z[1] - c[1])  d2 == Abs(z[2] - c[2]) IN
+    CASE kind = 9  -> <<z[1], z[2], d1 + r, d2 + r>>
+      [] kind = 10 -> <<z[1], z[2], d1 + d2 + r>>
+      [] kind = 11 -> <<z[1], z[2], Max2(d1, d2) + r>>
+      [] kind = 12 -> <<z[1], z[2], r + CHOOSE u \in 0..9 : d1 * d1 + d2 * d2 <= u * u /\ (u = 0 \/ (u - 1) * (u - 1) < d1 * d1 + d2 * d2)>>
+Anchor(kind, s) == LiftAtom(kind, s, Zc(s), 0)                      \* the sample point itself, u = 0
+TightAtoms(kind, s) == {a \in {LiftAtom(kind, s, z, 0) : z \in ZCand(kind, s)} : SuppMember(kind, s, a)}
+Atoms(kind, s) ==
+    IF Lifted(kind) THEN TightAtoms(kind, s) \cup {a \in {LiftAtom(kind, s, Zc(s), 1)} : SuppMember(kind, s, a)}
+    ELSE SuppVert(kind, s)
+\* points at which robust rows are checked: the atoms and, where u is unbounded above, points far along the recession direction
+Raise(a, r1, r2) == IF Len(a) = 4 THEN <<a[1], a[2], a[3] + r1, a[4] + r2>> ELSE <<a[1], a[2], a[3] + r1>>
+RowPoints(kind, s) ==
+    Atoms(kind, s) \cup (IF kind \in {9, 10, 12} THEN {Raise(a, r[1], r[2]) : a \in TightAtoms(kind, s), r \in {<<5, 0>>, <<0, 5>>, <<5, 5>>}} ELSE {})
+\* conditional distribution of a scenario: k/4 on atom a, (4-k)/4 on atom b
+OneAtom(v) == [a |-> v, b |-> v, k |-> 4]
+Singles(kind, s) == {OneAtom(v) : v \in Atoms(kind, s)}
+Pairs(kind, s) == IF Lifted(kind) THEN {[a |-> v, b |-> Anchor(kind, s), k |-> k] : v \in TightAtoms(kind, s) \ {Anchor(kind, s)}, k \in {1, 2}} ELSE {}
+CondDists(kind, s) == Singles(kind, s) \cup Pairs(kind, s)
+
 \* ---------------------------------------------------------------- probability sets (vertices, weights / DEN)
 Perms3(a, b, c) == {<<a, b, c>>, <<a, c, b>>, <<b, a, c>>, <<b, c, a>>, <<c, a, b>>, <<c, b, a>>}
 ProbVert(kind, n) ==
@@ -62,21 +124,54 @@ ProbVert(kind, n) ==
                      ELSE Perms3(36, 24, 0)                                                              \* p <= 3/5
       [] kind = 5 -> IF n = 1 THEN {<<60>>} ELSE IF n = 2 THEN {<<42, 18>>, <<18, 42>>}
                      ELSE Perms3(32, 8, 20)                                                              \* ||p - uniform||_1 <= 2/5
+      \* non-polyhedral sets: INNER rational points (a necessary condition for C03)
+      [] kind = 6 -> IF n = 1 THEN {<<60>>} ELSE IF n = 2 THEN {<<15, 45>>, <<45, 15>>}
+                     ELSE {<<35, 12, 13>>, <<12, 35, 13>>, <<13, 12, 35>>, <<7, 29, 24>>, <<29, 24, 7>>, <<24, 7, 29>>}   \* KL(p || uniform) <= 0.131
+      [] kind = 7 -> IF n = 1 THEN {<<60>>} ELSE IF n = 2 THEN {<<20, 40>>, <<40, 20>>}
+                     ELSE Perms3(30, 10, 20)                                                             \* ||p - uniform||_2 <= sqrt(200)/60 (on the boundary)
+      [] kind = 8 -> IF n = 1 THEN {<<60>>} ELSE IF n = 2 THEN {<<5, 55>>, <<27, 33>>}
+                     ELSE {<<8, 43, 9>>, <<5, 34, 21>>, <<13, 20, 27>>, <<23, 17, 20>>, <<27, 24, 9>>, <<16, 39, 5>>}   \* KL(p || phat) <= 0.1, phat below
+      [] kind = 9 -> IF n = 1 THEN {<<60>>} ELSE IF n = 2 THEN {<<7, 53>>, <<23, 37>>}
+                     ELSE {<<6, 37, 17>>, <<8, 28, 24>>, <<17, 21, 22>>, <<24, 23, 13>>, <<22, 32, 6>>, <<8, 39, 13>>}  \* ||p - phat||_2 <= 1/5
+PHat(kind, n) == IF kind \in {8, 9} THEN (IF n = 2 THEN <<15, 45>> ELSE <<15, 30, 15>>) ELSE (IF n = 2 THEN <<30, 30>> ELSE <<20, 20, 20>>)
+R2Den(kind) == IF kind = 7 THEN 200 ELSE 144           \* (r * DEN)^2
+\* the 2-norm catalogues are members, exactly; every catalogue is a set of probability vectors
+ASSUME \A kind \in {7, 9}, n \in {2, 3} : \A w \in ProbVert(kind, n) :
+           MapThenSumSet(LAMBDA i : (w[i] - PHat(kind, n)[i]) * (w[i] - PHat(kind, n)[i]), 1..n) <= R2Den(kind)
+ASSUME \A kind \in 1..9, n \in 1..3 : \A w \in ProbVert(kind, n) :
+           Len(w) = n /\ MapThenSumSet(LAMBDA i : w[i], 1..n) = DEN /\ \A i \in 1..n : w[i] >= 0
 
 \* ---------------------------------------------------------------- expectation sets
 \* a list of [event (set of scenarios), lo2, hi2]: bounds on 2*mean per component (so that halves are integers);
 \* lo2 = hi2 encodes an equality; "none" = -INF / INF
+\* lo2 / hi2 have four entries <<z1, z2, u1, u2>>; only the first Dim(supp) are used
 INF == 100000
+Free2 == <<INF, INF>>
+NFree2 == <<-INF, -INF>>
+Ex(ev, lo2, hi2, uhi2) == [ev |-> ev, lo2 |-> lo2 \o NFree2, hi2 |-> hi2 \o <<uhi2, uhi2>>, norm |-> 0, mu2 |-> <<0, 0>>, r2 |-> 0]
+\* conic set on the mean of z: || E z - mu2/2 ||_norm <= r2/2  (norm: 1, 2, 3 = inf)
+ExN(ev, norm, mu2, r2) == [ev |-> ev, lo2 |-> NFree2 \o NFree2, hi2 |-> Free2 \o Free2, norm |-> norm, mu2 |-> mu2, r2 |-> r2]
 ExptSets(kind) ==
     CASE kind = 0 -> <<>>
-      [] kind = 1 -> << [ev |-> "all", lo2 |-> <<-2, -2>>, hi2 |-> <<2, 2>>] >>               \* -1 <= E z <= 1
-      [] kind = 2 -> << [ev |-> "all", lo2 |-> <<0, -2>>, hi2 |-> <<0, 2>>] >>                \* E z1 == 0, -1 <= E z2 <= 1
-      [] kind = 3 -> << [ev |-> "first", lo2 |-> <<1, -1>>, hi2 |-> <<3, 1>>] >>              \* scenario 1: centre +- 1/2
-      [] kind = 4 -> << [ev |-> "all", lo2 |-> <<-2, -2>>, hi2 |-> <<2, 2>>],
-                        [ev |-> "firsttwo", lo2 |-> <<-1, 1>>, hi2 |-> <<1, 3>>] >>           \* plus: scenarios {1,2}: (0,1) +- 1/2
-      [] kind = 5 -> << [ev |-> "lasttwo", lo2 |-> <<-1, 1>>, hi2 |-> <<1, 3>>] >>            \* a NON-prefix event: the last two scenarios
-      [] kind = 6 -> << [ev |-> "firsttwo", lo2 |-> <<-2, -2>>, hi2 |-> <<2, 2>>],
-                        [ev |-> "lasttwo", lo2 |-> <<-1, 0>>, hi2 |-> <<1, 2>>] >>            \* two overlapping events
+      [] kind = 1 -> << Ex("all", <<-2, -2>>, <<2, 2>>, INF) >>                                 \* -1 <= E z <= 1
+      [] kind = 2 -> << Ex("all", <<0, -2>>, <<0, 2>>, INF) >>                                  \* E z1 == 0, -1 <= E z2 <= 1
+      [] kind = 3 -> << Ex("first", <<1, -1>>, <<3, 1>>, INF) >>                                \* scenario 1: centre +- 1/2
+      [] kind = 4 -> << Ex("all", <<-2, -2>>, <<2, 2>>, INF),
+                        Ex("firsttwo", <<-1, 1>>, <<1, 3>>, INF) >>                             \* plus: scenarios {1,2}: (0,1) +- 1/2
+      [] kind = 5 -> << Ex("lasttwo", <<-1, 1>>, <<1, 3>>, INF) >>                              \* a NON-prefix event: the last two scenarios
+      [] kind = 6 -> << Ex("firsttwo", <<-2, -2>>, <<2, 2>>, INF),
+                        Ex("lasttwo", <<-1, 0>>, <<1, 2>>, INF) >>                              \* two overlapping events
+      \* expectation information on the auxiliary variable (lifted supports only)
+      [] kind = 7 -> << Ex("all", NFree2, Free2, 1) >>                                          \* E u <= 1/2  (Wasserstein radius / MAD bound)
+      [] kind = 8 -> << Ex("all", <<-2, -2>>, <<2, 2>>, 2) >>                                   \* -1 <= E z <= 1 and E u <= 1 in ONE set
+      [] kind = 9 -> << Ex("first", NFree2, Free2, 1), Ex("all", NFree2, Free2, 3) >>           \* scenario 1: E u <= 1/2; all: E u <= 3/2
+      [] kind = 10 -> << Ex("first", <<2, 0>>, <<2, 0>>, 1) >>                                  \* scenario 1: E z == its centre, E u <= 1/2 (MAD information)
+      [] kind = 11 -> << Ex("lasttwo", NFree2, Free2, 2), Ex("all", <<-2, -2>>, <<2, 2>>, INF) >>  \* u bounded on a non-prefix event, z on all
+      \* conic expectation (moment) sets
+      [] kind = 12 -> << ExN("all", 1, <<0, 1>>, 3) >>                                          \* || E z - (0, 1/2) ||_1 <= 3/2
+      [] kind = 13 -> << ExN("lasttwo", 3, <<0, 0>>, 2) >>                                      \* last two scenarios: || E z ||_inf <= 1
+      [] kind = 14 -> << ExN("all", 2, <<0, 1>>, 3) >>                                          \* || E z - (0, 1/2) ||_2 <= 3/2
+      [] kind = 15 -> << ExN("firsttwo", 2, <<0, 2>>, 2), Ex("all", <<-2, -2>>, <<2, 2>>, INF) >>  \* first two: || E z - (0, 1) ||_2 <= 1; all: box
 Event(ev, n) == CASE ev = "all" -> 1..n [] ev = "first" -> {1} [] ev = "firsttwo" -> 1..(IF n >= 2 THEN 2 ELSE 1)
                   [] ev = "lasttwo" -> (IF n >= 2 THEN n - 1 ELSE 1)..n
 
@@ -99,31 +194,43 @@ PieceVal(pc, x, z, sc) == pc.ax * x + sc * (pc.az[1] * z[1] + pc.az[2] * z[2]) +
 PiecePairs(k) == CASE k = 1 -> <<1, 2>> [] k = 2 -> <<3, 4>> [] k = 3 -> <<5, 6>> [] k = 4 -> <<1, 7>> [] k = 5 -> <<4, 5>>
                    [] k = 6 -> <<1, 8>> [] k = 7 -> <<9, 4>>        \* one piece without random variables, constant # 0
 
-Max2(a, b) == IF a >= b THEN a ELSE b
-
 \* ---------------------------------------------------------------- members
-\* a member = [w: weights tuple, v: tuple of one support vertex per scenario]
-RECURSIVE Assignments(_, _, _)
-Assignments(kind, s, n) == IF s > n THEN {<<>>}
-                           ELSE {<<v>> \o rest : v \in SuppVert(kind, s), rest \in Assignments(kind, s + 1, n)}
+\* a member = [w: weights tuple, v: tuple of one conditional distribution [a, b, k] per scenario]
+\* at most `pairs` scenarios carry a two-atom conditional distribution (bounds the family: three scenarios -> one)
+RECURSIVE Assignments(_, _, _, _)
+Assignments(kind, s, n, pairs) ==
+    IF s > n THEN {<<>>}
+    ELSE {<<v>> \o rest : v \in Singles(kind, s), rest \in Assignments(kind, s + 1, n, pairs)}
+         \cup (IF pairs > 0 THEN {<<v>> \o rest : v \in Pairs(kind, s), rest \in Assignments(kind, s + 1, n, pairs - 1)} ELSE {})
 
+\* 4 * (conditional mean of component c in scenario s)
+Mean4(cd, c) == cd.k * cd.a[c] + (4 - cd.k) * cd.b[c]
 MeanOK(p, w, v) ==
     \A i \in 1..Len(ExptSets(p.expt)) :
         LET e == ExptSets(p.expt)[i]
             ev == Event(e.ev, p.ns)
-            W == MapThenSumSet(LAMBDA s : w[s], ev)
-        IN \A c \in 1..2 :
-              LET M == MapThenSumSet(LAMBDA s : w[s] * v[s][c], ev)
-              IN e.lo2[c] * W <= 2 * M /\ 2 * M <= e.hi2[c] * W
+            W == 4 * MapThenSumSet(LAMBDA s : w[s], ev)
+            MC(c) == MapThenSumSet(LAMBDA s : w[s] * Mean4(v[s], c), ev)       \* W * (conditional mean of component c)
+            D(c) == 2 * MC(c) - e.mu2[c] * W                                    \* 2 W * (mean - mu)
+        IN /\ \A c \in 1..Dim(p.supp) :
+                 (e.lo2[c] > -INF => e.lo2[c] * W <= 2 * MC(c)) /\ (e.hi2[c] < INF => 2 * MC(c) <= e.hi2[c] * W)
+           /\ (e.norm = 1 => Abs(D(1)) + Abs(D(2)) <= e.r2 * W)
+           /\ (e.norm = 3 => Max2(Abs(D(1)), Abs(D(2))) <= e.r2 * W)
+           /\ (e.norm = 2 => D(1) * D(1) + D(2) * D(2) <= (e.r2 * W) * (e.r2 * W))
 
-Members(p) == {m \in [w : ProbVert(p.prob, p.ns), v : Assignments(p.supp, 1, p.ns)] : MeanOK(p, m.w, m.v)}
+MemberSpace(p) == [w : ProbVert(p.prob, p.ns), v : Assignments(p.supp, 1, p.ns, IF p.ns >= 3 THEN 1 ELSE 2)]
+Members(p) == {m \in MemberSpace(p) : MeanOK(p, m.w, m.v)}
+\* non-emptiness; lifted kinds: first try the members that keep all mass on the sample points (cheap), then search
+HasMember(p) ==
+    \/ Lifted(p.supp) /\ \E w \in ProbVert(p.prob, p.ns) : MeanOK(p, w, [s \in 1..p.ns |-> OneAtom(Anchor(p.supp, s))])
+    \/ \E m \in MemberSpace(p) : MeanOK(p, m.w, m.v)
 
 \* ---------------------------------------------------------------- semantics
 ObjPiecePair(p) == PiecePairs(p.pieces)
 FVal(p, x, z, sc) == Max2(PieceVal(Piece(ObjPiecePair(p)[1]), x, z, sc), PieceVal(Piece(ObjPiecePair(p)[2]), x, z, sc))
 
-\* expectation (times DEN) of g over member m
-ExpDen(m, n, g(_, _)) == MapThenSumSet(LAMBDA s : m.w[s] * g(s, m.v[s]), 1..n)
+\* expectation (times 4 * DEN) of g over member m
+ExpDen(m, n, g(_, _)) == MapThenSumSet(LAMBDA s : m.w[s] * (m.v[s].k * g(s, m.v[s].a) + (4 - m.v[s].k) * g(s, m.v[s].b)), 1..n)
 
 \* form B, no expectation information: the worst case puts each scenario's conditional mass on its worst vertex
 WorstB(p, x) ==
@@ -133,7 +240,14 @@ EConOK(p, x) ==
     p.econ = 0 \/
     \A w \in ProbVert(p.prob, p.ns) :
         MapThenSumSet(LAMBDA s : w[s] * Max({PieceVal(Piece(p.econ), x, v, 1) : v \in SuppVert(p.supp, s)}), 1..p.ns) <= 0
-ExactB(p) == p.form = "B" /\ p.expt = 0
+ExactB(p) == p.form = "B" /\ p.expt = 0 /\ ~Lifted(p.supp) /\ p.prob <= 5
+\* form C: the worst case over the supports alone (every scenario, whatever its probability)
+WorstC(p, x) == Max({FVal(p, x, v, 1) : v \in UNION {SuppVert(p.supp, s) : s \in 1..p.ns}})
+ExactC(p) == p.form = "C" /\ ~Lifted(p.supp) /\ (p.econ = 0 \/ (p.expt = 0 /\ p.prob <= 5))
+GridOptC(p) ==
+    LET F == {x \in (-XB)..XB : EConOK(p, x)} IN
+    IF F = {} THEN [feasible |-> FALSE, val |-> 0]
+    ELSE [feasible |-> TRUE, val |-> DEN * Min({WorstC(p, x) : x \in F})]      \* value times DEN
 GridOptB(p) ==
     LET F == {x \in (-XB)..XB : EConOK(p, x)} IN
     IF F = {} THEN [feasible |-> FALSE, val |-> 0]
@@ -143,16 +257,21 @@ GridOptB(p) ==
 EventOfScen(part, s) == CASE part = 0 -> 1 [] part = 1 -> s [] part = 2 -> IF s = 1 THEN 1 ELSE 2
 
 WellFormed(p) ==
-    /\ (p.form = "B" => p.part = 0 /\ p.aff = "a0")
-    /\ (p.xint => p.form = "B" /\ p.supp # 7)       \* exponential-cone supports need ECOS: continuous only
+    /\ (p.form # "A" => p.part = 0 /\ p.aff = "a0" /\ p.rsupp = 0)
+    /\ (p.xint => p.form # "A" /\ p.supp \notin {7, 12} /\ p.prob <= 5 /\ p.expt \notin {14, 15})   \* cone programs (ECOS / time-limited Gurobi): continuous only
+    /\ (p.expt \in 7..11 => Lifted(p.supp))         \* expectation information on u needs u
+    \* rows with their own support: every support used contains the scenario centre (else the affine program is unbounded);
+    \* plain z-supports only; kind 3 (one common box) is the one given as a list of constraints
+    /\ (p.rsupp # 0 => p.rsupp # p.supp /\ p.rsupp \in {1, 2, 3, 4, 8} /\ p.supp \in {2, 3, 4, 8} /\ (p.rsupp = 1 => p.aff = "a0"))
+    /\ (p.aff \in {"au", "a12u"} => Lifted(p.supp))
     /\ (p.ns = 1 => p.part = 0 /\ p.prob = 1)
     /\ (p.part = 2 => p.ns = 3)
-    /\ Members(p) # {}
+    /\ HasMember(p)
     /\ (p.supp \in {1, 6} => p.aff = "a0")          \* affine rules on singleton supports are degenerate
 
 Programs ==
     {p \in [ns : NSs, supp : SuppKinds, prob : ProbKinds, expt : ExptKinds, form : Forms, pieces : PieceSets,
-            econ : EConChoices, part : Parts, aff : Affs, xint : IntChoices] : WellFormed(p)}
+            econ : EConChoices, part : Parts, aff : Affs, xint : IntChoices, rsupp : RowSupps] : WellFormed(p)}
 
 VARIABLES prog, res
 vars == <<prog, res>>
@@ -162,54 +281,74 @@ Next == UNCHANGED vars
 Spec == Init /\ [][Next]_vars
 
 Rec(p) ==
-    LET g == IF ExactB(p) THEN GridOptB(p) ELSE [feasible |-> FALSE, val |-> 0] IN
+    LET g == IF ExactB(p) THEN GridOptB(p) ELSE IF ExactC(p) THEN GridOptC(p) ELSE [feasible |-> FALSE, val |-> 0] IN
     [prog |-> p,
-     verts |-> [s \in 1..p.ns |-> SetToSeq(SuppVert(p.supp, s))],
+     verts |-> [s \in 1..p.ns |-> SetToSeq(Atoms(p.supp, s))],      \* lifted kinds: the atoms (the oracle enumerates the true vertices itself)
+     nu |-> NU(p.supp),
+     rverts |-> [s \in 1..p.ns |-> IF p.rsupp = 0 THEN <<>> ELSE SetToSeq(SuppVert(p.rsupp, s))],     \* the rows' own support
      centres |-> [s \in 1..p.ns |-> Zc(s)],
      pverts |-> SetToSeq(ProbVert(p.prob, p.ns)),
      expts |-> [i \in 1..Len(ExptSets(p.expt)) |->
-                  [ev |-> SetToSeq(Event(ExptSets(p.expt)[i].ev, p.ns)), lo2 |-> ExptSets(p.expt)[i].lo2, hi2 |-> ExptSets(p.expt)[i].hi2]],
+                  [ev |-> SetToSeq(Event(ExptSets(p.expt)[i].ev, p.ns)), lo2 |-> ExptSets(p.expt)[i].lo2, hi2 |-> ExptSets(p.expt)[i].hi2,
+                   norm |-> ExptSets(p.expt)[i].norm, mu2 |-> ExptSets(p.expt)[i].mu2, r2 |-> ExptSets(p.expt)[i].r2]],
      piece1 |-> Piece(ObjPiecePair(p)[1]), piece2 |-> Piece(ObjPiecePair(p)[2]),
      econ |-> IF p.econ = 0 THEN Piece(7) ELSE Piece(p.econ),
      events |-> [s \in 1..p.ns |-> EventOfScen(p.part, s)],
-     nmembers |-> Cardinality(Members(p)),
-     exact |-> ExactB(p), gridFeasible |-> g.feasible, gridOptDen |-> g.val]
+     nmembers |-> IF Lifted(p.supp) THEN -1 ELSE Cardinality(Members(p)),      \* lifted: counted by the validator
+     exact |-> ExactB(p) \/ ExactC(p), gridFeasible |-> g.feasible, gridOptDen |-> g.val]
 
 Export == res.tid # 0 \/ PrintT(ToJson(Rec(prog)))
 
 \* ---------------------------------------------------------------- validator (code -> spec)
-\* res = [tid, prog, status, x, obj, ys: per scenario <<y0, Y1, Y2>>, tol, exact, gridFeasible, gridOptDen] (scaled by SC)
+\* res = [tid, prog, status, x, obj, ys: per scenario <<y0, Y1, Y2, U1, U2>>, tol, exact, gridFeasible, gridOptDen] (scaled by SC)
 P == prog
 YAt(s, v) == res.ys[s][1] + res.ys[s][2] * v[1] + res.ys[s][3] * v[2]
+             + (IF Len(v) >= 3 THEN res.ys[s][4] * v[3] ELSE 0) + (IF Len(v) >= 4 THEN res.ys[s][5] * v[4] ELSE 0)
 
+RowSupport(s) == IF P.rsupp = 0 THEN RowPoints(P.supp, s) ELSE SuppVert(P.rsupp, s)      \* the rows' own support if they have one
 PostRows ==   \* form A: rows written without E hold for every scenario and every realisation of its support
-    P.form = "B" \/
-    \A s \in 1..P.ns : \A v \in SuppVert(P.supp, s) : \A l \in 1..2 :
+    P.form # "A" \/
+    \A s \in 1..P.ns : \A v \in RowSupport(s) : \A l \in 1..2 :
         YAt(s, v) >= PieceVal(Piece(ObjPiecePair(P)[l]), res.x, v, SC) - res.tol
-PostObj ==    \* the reported optimum bounds the expectation under every member distribution
-    \A m \in Members(P) :
+PostObj(M) ==    \* the reported optimum bounds the expectation under every member distribution
+    IF P.form = "C"      \* no expectation: the optimum bounds the objective at every realisation of every scenario
+    THEN \A s \in 1..P.ns : \A v \in RowPoints(P.supp, s) : FVal(P, res.x, v, SC) <= res.obj + res.tol
+    ELSE
+    \A m \in M :
         IF P.form = "B"
-        THEN ExpDen(m, P.ns, LAMBDA s, v : FVal(P, res.x, v, SC)) <= DEN * (res.obj + res.tol)
-        ELSE ExpDen(m, P.ns, LAMBDA s, v : YAt(s, v)) <= DEN * (res.obj + res.tol)
-PostECon ==
+        THEN ExpDen(m, P.ns, LAMBDA s, v : FVal(P, res.x, v, SC)) <= 4 * DEN * (res.obj + res.tol)
+        ELSE ExpDen(m, P.ns, LAMBDA s, v : YAt(s, v)) <= 4 * DEN * (res.obj + res.tol)
+PostECon(M) ==
     P.econ = 0 \/
-    \A m \in Members(P) : ExpDen(m, P.ns, LAMBDA s, v : PieceVal(Piece(P.econ), res.x, v, SC)) <= DEN * res.tol
+    \A m \in M : ExpDen(m, P.ns, LAMBDA s, v : PieceVal(Piece(P.econ), res.x, v, SC)) <= 4 * DEN * res.tol
 PostNonAnticip ==   \* C13: one rule per declared event, dependence only on declared components
-    P.form = "B" \/
+    P.form # "A" \/
     /\ \A s, t \in 1..P.ns : EventOfScen(P.part, s) = EventOfScen(P.part, t) =>
-           \A c \in 1..3 : res.ys[s][c] - res.ys[t][c] <= 1 /\ res.ys[t][c] - res.ys[s][c] <= 1
-    /\ \A s \in 1..P.ns : /\ (P.aff = "a0" => res.ys[s][2] = 0 /\ res.ys[s][3] = 0)
-                          /\ (P.aff = "a1" => res.ys[s][3] = 0)
+           \A c \in 1..5 : res.ys[s][c] - res.ys[t][c] <= 1 /\ res.ys[t][c] - res.ys[s][c] <= 1
+    /\ \A s \in 1..P.ns : /\ (P.aff = "a0" => \A c \in 2..5 : res.ys[s][c] = 0)
+                          /\ (P.aff = "a1" => \A c \in 3..5 : res.ys[s][c] = 0)
+                          /\ (P.aff = "a12" => \A c \in 4..5 : res.ys[s][c] = 0)
+                          /\ (P.aff = "au" => \A c \in 2..3 : res.ys[s][c] = 0)
+                          /\ \A c \in (4 + NU(P.supp))..5 : res.ys[s][c] = 0
 PostTight ==  \* C04, one-sided: not worse than the best grid decision (exact sub-family)
     (res.exact /\ res.gridFeasible) => DEN * (res.obj - res.tol) <= SC * res.gridOptDen
 PostExact ==  \* C04: integer decision: equality
     (res.exact /\ res.gridFeasible /\ P.xint) => DEN * (res.obj + res.tol) >= SC * res.gridOptDen
 PostStatus == (res.exact /\ res.gridFeasible) => res.status = "ok"
 
-Verdict == [tid |-> res.tid,
-            rows |-> res.status # "ok" \/ PostRows, obj |-> res.status # "ok" \/ PostObj,
-            econ |-> res.status # "ok" \/ PostECon, nonanticip |-> res.status # "ok" \/ PostNonAnticip,
+Verdict == LET M == IF res.status = "ok" THEN Members(P) ELSE {} IN
+           [tid |-> res.tid, nmem |-> Cardinality(M),
+            rows |-> res.status # "ok" \/ PostRows, obj |-> res.status # "ok" \/ PostObj(M),
+            econ |-> res.status # "ok" \/ PostECon(M), nonanticip |-> res.status # "ok" \/ PostNonAnticip,
             tight |-> res.status # "ok" \/ PostTight, exact |-> res.status # "ok" \/ PostExact,
             status |-> PostStatus]
 Validate == res.tid = 0 \/ PrintT(ToJson(Verdict))
+\* the atom catalogue of the lifted kinds is checked against the definition of the declared sets (vacuity: enough atoms,
+\* the anchor and at least one two-atom conditional distribution per scenario)
+ASSUME \A kind \in 9..12, s \in 1..3 :
+           /\ \A a \in Atoms(kind, s) : Len(a) = Dim(kind) /\ SuppMember(kind, s, a)
+           /\ \A a \in RowPoints(kind, s) : SuppMember(kind, s, a)
+           /\ Anchor(kind, s) \in TightAtoms(kind, s)
+           /\ Cardinality(TightAtoms(kind, s)) >= 3
+           /\ Cardinality(CondDists(kind, s)) >= Cardinality(Atoms(kind, s)) + 4
 =============================================================================
